@@ -317,7 +317,9 @@ def c17_connection(ch, build):
         ra = [{"id": r["id"], "data": r["data"]} for r in a]
         rb = [{"id": r["id"], "data": r["data"]} for r in b]
         pre = [hs.open_step(suites=[su])]
-        at = rng.choice([3, 4, 5, 6])
+        # requests of a retrieval: 0 info, 1 reserve, 2.. headers and bodies, last: info again; with three or more records the
+        # requests 2, 3, 4 all lie inside the walk, before the closing info
+        at = rng.choice([2, 3, 4])
         ev = {"before": at, "kind": "modify_sdr", "sdrs": rb, "addition": 1001, "erase": 901}
         both = {"bmc": default_bmc(seed=480 + k, suites=[[100, su[0], su[1], su[2]]], sdrs=ra, addition=1000, erase=900), "timeout_ms": 40,
                 "steps": pre + [{"op": "sdr", "conn": "session", "ctx_ms": 12000, "events": [ev]}]}
